@@ -192,7 +192,7 @@ def generate(st):
                     'adj': g.choice([None, 'f', 'p', 'm']), 'via': g.choice(['add', 'dt_bump'])}
         kind = g.choice(cfg['queries'])
         ds = _interesting_dates(c, g, 2)
-        q = {'op': 'q', 'on': target, 'kind': kind, 't': _iso(ds[0])}
+        q = {'op': 'q', 'on': target, 'kind': kind, 't': _iso(ds[0]), 'tform': g.choice(['datetime', 'datetime', 'datetime', 'timestamp', 'date'])}
         if kind in ('adjust',):
             q['adj'] = g.choice(['f', 'p', 'm', None])
         if kind in ('add', 'addinv', 'dt_bump'):
@@ -379,22 +379,30 @@ def execute(trace, ctx=None):
                 continue
             if not ref.inside(t) or ref.long_run(t):
                 continue
+            tl = t                             # the form in which the library is handed the date; the reference keeps the datetime
+            if op.get('tform') == 'timestamp':
+                import pandas as pd
+                tl = pd.Timestamp(t)           # a datetime subclass: every answer must be the same
+                res.probe('query-date-as-Timestamp')
+            elif op.get('tform') == 'date' and op['kind'] in ('is_bday', 'is_holiday', 'adjust', 'add', 'bdays'):
+                tl = datetime.date(t.year, t.month, t.day)
+                res.probe('query-date-as-date')
             q = op['kind']
             fresh = target.startswith('key:') and registered_count.get(target, 0) > 1
             cold = not warmed.get(target)
             what = '%s.%s(%s)' % (target, q, op['t'])
             if q == 'is_bday':
-                got = lib(lambda: cal.is_bday(t), what)
+                got = lib(lambda: cal.is_bday(tl), what)
                 exp = ref.is_bday(t)
                 if bool(got) != exp:
                     raise Violation('is-bday', '%s = %r, day-by-day says %r' % (what, got, exp), k)
             elif q == 'is_holiday':
-                got = lib(lambda: cal.is_holiday(t), what)
+                got = lib(lambda: cal.is_holiday(tl), what)
                 if bool(got) != (not ref.is_bday(t)):
                     raise Violation('is-bday', '%s = %r, day-by-day says %r' % (what, got, not ref.is_bday(t)), k)
             elif q == 'adjust':
                 adj = op.get('adj')
-                got = lib(lambda: cal.adjust(t, adj), what)
+                got = lib(lambda: cal.adjust(tl, adj), what)
                 exp = ref.adjust(t, adj)
                 if got != exp:
                     raise Violation('adjust', '%s adj=%s = %s, day-by-day says %s' % (what, adj or ref.adj, got, exp), k)
@@ -403,8 +411,8 @@ def execute(trace, ctx=None):
                 if k % 4 == 0:
                     # the documented container forms: a list / tuple / dict of dates is adjusted element-wise
                     t2 = t + 3 * DAY
-                    gl = lib(lambda: cal.adjust([t, t2], adj), what)
-                    gd = lib(lambda: cal.adjust({'x': t, 'y': t2}, adj), what)
+                    gl = lib(lambda: cal.adjust([tl, t2], adj), what)
+                    gd = lib(lambda: cal.adjust({'x': tl, 'y': t2}, adj), what)
                     if list(gl) != [exp, ref.adjust(t2, adj)] or dict(gd) != {'x': exp, 'y': ref.adjust(t2, adj)}:
                         raise Violation('adjust', '%s on a list/dict of dates = %s / %s' % (what, gl, gd), k)
             elif q in ('add', 'dt_bump'):
@@ -413,9 +421,9 @@ def execute(trace, ctx=None):
                 if not ref.inside(exp):
                     continue
                 if q == 'add':
-                    got = lib(lambda: cal.add(t, n, adj), what)
+                    got = lib(lambda: cal.add(tl, n, adj), what)
                 else:
-                    got = lib(lambda: cal.dt_bump(t, '%db' % n, adj), what)
+                    got = lib(lambda: cal.dt_bump(tl, '%db' % n, adj), what)
                 if got != exp:
                     cls = 'add-single-step' if abs(n) <= 1 else 'add-table'
                     raise Violation(cls, '%s n=%d adj=%s = %s, counting day by day gives %s%s' % (what, n, adj or ref.adj, got, exp,
@@ -426,7 +434,7 @@ def execute(trace, ctx=None):
                     warmed[target] = True
                 if q == 'add' and (k % 3) == 0:
                     # bdays(t, add(t, n)) == n (same adjustment convention on both sides)
-                    back = lib(lambda: cal.bdays(t, got, adj), what)
+                    back = lib(lambda: cal.bdays(tl, got, adj), what)
                     if back != n:
                         raise Violation('bdays', '%s: bdays(t, add(t, %d)) = %r' % (what, n, back), k)
                     warmed[target] = True
@@ -447,8 +455,8 @@ def execute(trace, ctx=None):
                 exp = ref.add(t, 2 * sgn, adj)
                 if not ref.inside(exp):
                     continue
-                a = lib(lambda: cal.add(t, 2 * sgn, adj), what)
-                b = lib(lambda: cal.add(cal.add(t, sgn, adj), sgn, adj), what)
+                a = lib(lambda: cal.add(tl, 2 * sgn, adj), what)
+                b = lib(lambda: cal.add(cal.add(tl, sgn, adj), sgn, adj), what)
                 if a != b or a != exp:
                     raise Violation('add-paths-disagree', '%s: add(t, %d) = %s via the table, %s via two single steps, day-by-day %s' % (what, 2 * sgn, a, b, exp), k)
                 warmed[target] = True
@@ -456,13 +464,13 @@ def execute(trace, ctx=None):
                 t2 = _d(op['t2'])
                 if not ref.inside(t2) or ref.long_run(t2):
                     continue
-                got = lib(lambda: cal.bdays(t, t2), what)
+                got = lib(lambda: cal.bdays(tl, t2), what)
                 exp = ref.bdays(t, t2)
                 if got != exp:
                     raise Violation('bdays', '%s..%s = %r, counting gives %r' % (what, op['t2'], got, exp), k)
                 n = exp
                 if -40 <= n <= 40:
-                    back = lib(lambda: cal.add(t, n), what)
+                    back = lib(lambda: cal.add(tl, n), what)
                     if back != ref.adjust(t2) and ref.inside(back):
                         raise Violation('bdays', 'add(t, bdays(t, t2)) = %s, not adjust(t2) = %s' % (back, ref.adjust(t2)), k)
                 warmed[target] = True
@@ -470,7 +478,7 @@ def execute(trace, ctx=None):
                 t2 = _d(op['t2'])
                 if not ref.inside(t2) or ref.long_run(t2):
                     continue
-                got = lib(lambda: cal.drange(t, t2, '1b'), what)
+                got = lib(lambda: cal.drange(tl, t2, '1b'), what)
                 exp = ref.drange(t, t2)
                 if list(got) != exp:
                     raise Violation('drange', '%s..%s = %s..(%d days), expected %s..(%d days)' % (what, op['t2'], got[:3], len(got), exp[:3], len(exp)), k)
@@ -479,7 +487,7 @@ def execute(trace, ctx=None):
                     # the list now belongs to the caller, who may do with it what it likes; asking again must give the days again
                     got.reverse()
                     del got[:max(1, len(got) // 2)]
-                    again = lib(lambda: cal.drange(t, t2, '1b'), what)
+                    again = lib(lambda: cal.drange(tl, t2, '1b'), what)
                     if list(again) != exp:
                         raise Violation('drange', '%s..%s asked a second time (after the caller edited the first answer) = %s..(%d days), expected %d days'
                                         % (what, op['t2'], list(again)[:3], len(again), len(exp)), k)
@@ -488,7 +496,7 @@ def execute(trace, ctx=None):
                 t2 = t + 9 * DAY
                 if not ref.inside(t2):
                     continue
-                a = lib(lambda: cal.clock(t), what)
+                a = lib(lambda: cal.clock(tl), what)
                 b = lib(lambda: cal.clock(t2), what)
                 if b - a != ref.bdays(t, t2):
                     raise Violation('bdays', '%s: clock difference over 9 days = %r, counting gives %r' % (what, b - a, ref.bdays(t, t2)), k)
@@ -571,7 +579,7 @@ def signature(trace, violation):
 
 
 PROBES = ['query-after-reregistration', 'reregistration-over-warm-table', 'holiday-run-across-month-end', 'modified-following-falls-back',
-          'single-step-before-populate', 'query-near-range-edge', 'caller-edits-returned-drange', 'reregistration-with-another-weekend', 'many-other-keys-registered']
+          'single-step-before-populate', 'query-near-range-edge', 'caller-edits-returned-drange', 'reregistration-with-another-weekend', 'many-other-keys-registered', 'query-date-as-Timestamp', 'query-date-as-date']
 TIERS = {'quick': {'runs': 6000, 'wallcap': 50}, 'thorough': {'runs': 350000, 'wallcap': 800}}
 COMPONENTS = {
     'real': ['pyg_base._drange Calendar (is_bday, is_holiday, adjust, add, bdays, drange, dt_bump, clock, _populate)', 'pyg_base._drange.calendar() and the calendars registry',
